@@ -477,3 +477,31 @@ def flat_decodes(items, data):
         else:
             return None
     return True
+
+
+# EZSP v14 replaced the one-byte stack / serial-protocol status by the 32-bit unified status in every frame; bellows' own
+# table keeps it in exactly one place (an explicit definition).  Stated here from the EZSP reference, not from the tables.
+LEGACY_STATUS_LEFT_IN_V14 = {("launchStandaloneBootloader", "rx", "status")}
+
+
+def legacy_status_fields(version):
+    """fields of the version's command table whose type is a legacy one-byte status (EmberStatus / EzspStatus)"""
+    import bellows.ezsp as E
+    import bellows.types as t
+    out = []
+    for name, (_cid, tx, rx) in E.EZSP._BY_VERSION[version].COMMANDS.items():
+        for side, sch in (("tx", tx), ("rx", rx)):
+            if isinstance(sch, dict):
+                for k, ty in sch.items():
+                    if isinstance(ty, type) and issubclass(ty, (t.EmberStatus, t.EzspStatus)):
+                        out.append((name, side, k))
+    return out
+
+
+def unified_status_violations():
+    import bellows.ezsp as E
+    bad = []
+    for v in sorted(E.EZSP._BY_VERSION):
+        if v >= 14:
+            bad += [(v,) + f for f in legacy_status_fields(v) if f not in LEGACY_STATUS_LEFT_IN_V14]
+    return bad
